@@ -59,10 +59,9 @@ def _digs(n, w):
 def _want_entry(e, mips64, rela):
     off, info, sym, typ, add, ssym, t3, t2 = e
     w = {'r_offset': _u(off), 'r_info_sym': _u(sym), 'r_info_type': _u(typ)}
+    w['r_info'] = _u(info)
     if mips64:
         w.update({'r_sym': _u(sym), 'r_ssym': ssym, 'r_type3': t3, 'r_type2': t2, 'r_type': _u(typ)})
-    else:
-        w['r_info'] = _u(info)
     if rela:
         w['r_addend'] = _s(add)
     return w
@@ -191,6 +190,34 @@ def _apply(run, case, data, ELFFile, bad, stats):
     if outside:
         bad('apply.untouched', 'bytes outside every field unchanged', {'changed_at': outside[:8]},
             tag='%s:%s:%s' % (mname, case['sub'], fl))
+
+
+def _twotabs(case, data, ELFFile, bad):
+    """Two relocated sections whose tables designate different symbol tables, relocated with ONE RelocationHandler (both
+    orders), and through get_dwarf_info: each result is the specification's for the table's own symbol table."""
+    from elftools.elf.relocation import RelocationHandler
+    from elftools.common.exceptions import ELFRelocationError
+    mname = '%s/%d' % (MACH.get(case['machine'], str(case['machine'])), case['cls'])
+    parts = (('.debug_info', case['a']), ('.debug_line', case['b']))
+    for order in (parts, parts[::-1]):
+        ef = ELFFile(io.BytesIO(data))
+        h = RelocationHandler(ef)
+        for name, want in order:
+            sec = ef.get_section_by_name(name)
+            rs = h.find_relocations_for_section(sec)
+            if rs is None:
+                bad('twotabs.find', 'relocation section of ' + name, None, tag=mname)
+                continue
+            stream = io.BytesIO(sec.data())
+            try:
+                h.apply_section_relocations(stream, rs)
+                got = stream.getvalue()
+            except ELFRelocationError:
+                got = 'ELFRelocationError'
+            exp = 'ELFRelocationError' if want['err'] else bytes(want['bytes'])
+            if got != exp:
+                bad('twotabs.apply', exp if isinstance(exp, str) else list(exp), got if isinstance(got, str) else list(got),
+                    tag='%s:%s:%s' % (mname, name, 'first' if order[0][0] == name else 'second'))
 
 
 # ------------------------------------------------------------------------------------------ RELR
@@ -462,7 +489,8 @@ def check(run):
                         'symbols are absolute STT_NOTYPE symbols (no ARM T bit); MIPS64 composed relocations are not applied',
                         'ARM/RELA, AArch64/REL, R_ARM_CALL, R_MIPS_64/REL and EM_BPF are not asserted (psABI admits both or is unclear)',
                         'RELR streams start with an anchor and stay inside the address space',
-                        'the synthetic r_info of MIPS64 entries is not asserted']
+                        'r_info of a MIPS64 entry = the number its eight info bytes denote in field order (sym, ssym, type3, type2, type), '
+                        'i.e. what the r_info xword holds in a big-endian object']
     cfg = 'Reloc_quick' if run.tier == 'quick' else 'Reloc_thorough'
     res = run.tlc('Reloc', cfg)
     seen = set()
@@ -476,7 +504,8 @@ def check(run):
         seen.add(key)
         data = concretise(case['chunks'])
         table = mode in ('decode', 'apply', 'errors')
-        nontriv = bool(case['entries']) if table else bool(case['view']['present']) if mode == 'dyn' else any(w[0] % 2 for w in case['words'])
+        nontriv = bool(case['entries']) if table else bool(case['view']['present']) if mode == 'dyn' else True if mode == 'twotabs' \
+            else any(w[0] % 2 for w in case['words'])
         run.count(key, nontrivial=nontriv)
         bymode[mode] = bymode.get(mode, 0) + 1
         base_tag = '%d%s' % (case['cls'], 'le' if case['le'] else 'be')
@@ -502,6 +531,8 @@ def check(run):
                 stats['decode_entries'] += len(case['entries'])
                 if mode != 'decode':
                     _apply(run, case, data, ELFFile, bad, stats)
+            elif mode == 'twotabs':
+                _twotabs(case, data, ELFFile, bad)
             elif mode == 'dyn':
                 _dyn(run, case, ef, bad)
                 stats['dynamic_tables'] += 2 * len(case['view']['present'])
